@@ -162,6 +162,10 @@ inductive Req
   /-- `PUT /characteristics {"characteristics":[{"aid":1,"iid":x[,"ev":ev][,"value":val]}]}`;
       `close` = the request carries `Connection: close` (h11 MUST_CLOSE after the response) -/
   | put (x : Cid) (ev : Option Bool) (val : Option Val) (close : Bool)
+  /-- one PUT with several queries (a "scene" write, possibly across bridged accessories; a `Cid`
+      stands for an (aid, iid) pair): `set_characteristics` first runs `_notify` over ALL queries,
+      then the write (and the stale-entry discard) query by query, in order -/
+  | putMany (qs : List (Cid × Option Bool × Option Val)) (close : Bool)
   | get (x : Cid)
   | prepare (pid : Pid)
   /-- `POST /resource` (delayed response) -/
@@ -412,6 +416,20 @@ def onPut (c : Cfg) (s : St) (p : ObjId) (x : Cid) (ev : Option Bool) (val : Opt
            else respond s p 401 Body.none
   if cl then ((closeP c r.1 p).1, r.2 ++ (closeP c r.1 p).2) else r
 
+/-- `set_characteristics` for a list of queries: every `ev` member first (`_notify`), then the
+    `value` members in request order (each: `client_update_value`, `discard_stale_event`) -/
+def putAll (c : Cfg) (s : St) (p : ObjId) (qs : List (Cid × Option Bool × Option Val)) : St :=
+  let s1 := qs.foldl (fun t q => putChars c t p q.1 q.2.1 none) s
+  qs.foldl (fun t q => match q.2.2 with
+                       | none => t
+                       | some v => putChars c t p q.1 none (some v)) s1
+
+def onPutMany (c : Cfg) (s : St) (p : ObjId) (qs : List (Cid × Option Bool × Option Val)) (cl : Bool) :
+    St × List Out :=
+  let r := if (s.obj p).verified then respond (putAll c s p qs) p 204 Body.none
+           else respond s p 401 Body.none
+  if cl then ((closeP c r.1 p).1, r.2 ++ (closeP c r.1 p).2) else r
+
 /-- dispatch of one complete request on a connection whose transport is open -/
 def onReq (c : Cfg) (s : St) (p : ObjId) (r : Req) : St × List Out :=
   if (s.obj p).pending then
@@ -423,6 +441,7 @@ def onReq (c : Cfg) (s : St) (p : ObjId) (r : Req) : St × List Out :=
   | .badHttp => closeP c s p
   | .badFrame => closeP c s p
   | .put x ev val cl => onPut c s p x ev val cl
+  | .putMany qs cl => onPutMany c s p qs cl
   | .get x =>
     if (s.obj p).verified then respond s p 200 (Body.value (s.value x))
     else respond s p 401 (Body.status (-70401))
